@@ -79,6 +79,7 @@ type CallSiteSpec struct {
 	Tag    string
 	Clause *Clause
 	IsUse  bool // "callsite f use lemma(args)": assume a lemma instance at the call instead of asserting
+	IsReach bool // "callsite f reach [tag] e": the call must be reachable in a state satisfying e (a must-be-satisfiable cover)
 }
 
 type SpecFn struct {
@@ -303,7 +304,15 @@ func loadContracts(path string) (*PkgContracts, error) {
 				fc.Trusted = true
 				pc.Assumptions = append(pc.Assumptions, fmt.Sprintf("interface contract %s (%s:%d): implementations outside /repo's contracted set are assumed to satisfy it", name, path, l.line))
 			}
-			// forms: Name | (T).Name | (*T).Name | T.Name
+			// forms: Name | (T).Name | (*T).Name | T.Name, optionally followed by " @variant": an additional
+			// scenario contract of the same function (other preconditions, other clauses); it is verified
+			// like any contract but never used at call sites, which always see the primary contract
+			variant := ""
+			if i := strings.Index(name, "@"); i >= 0 {
+				variant = strings.TrimSpace(name[i+1:])
+				name = strings.TrimSpace(name[:i])
+				fc.Name = name + "@" + variant
+			}
 			n := strings.NewReplacer("(", "", ")", "", "*", "").Replace(name)
 			if i := strings.LastIndex(n, "."); i >= 0 {
 				fc.Recv, fc.Fn = n[:i], n[i+1:]
@@ -313,6 +322,9 @@ func loadContracts(path string) (*PkgContracts, error) {
 			key := fc.Fn
 			if fc.Recv != "" {
 				key = fc.Recv + "." + fc.Fn
+			}
+			if variant != "" {
+				key += "@" + variant
 			}
 			if _, dup := pc.Funcs[key]; dup {
 				return nil, fail(l, "duplicate contract for %s", key)
@@ -492,7 +504,7 @@ func loadContracts(path string) (*PkgContracts, error) {
 				case "callsite":
 					// callsite <callee> assert [tag] <expr>
 					f := strings.Fields(rest)
-					if len(f) < 3 || f[1] != "assert" && f[1] != "use" {
+					if len(f) < 3 || f[1] != "assert" && f[1] != "use" && f[1] != "reach" {
 						return nil, fail(l, "callsite: expected 'callsite <callee> assert <expr>' or 'callsite <callee> use lemma(args)'")
 					}
 					body := strings.TrimSpace(strings.TrimPrefix(strings.TrimSpace(rest[len(f[0]):]), f[1]))
@@ -500,7 +512,7 @@ func loadContracts(path string) (*PkgContracts, error) {
 					if err != nil {
 						return nil, err
 					}
-					curF.CallSites = append(curF.CallSites, &CallSiteSpec{Callee: f[0], Tag: c.Tag, Clause: c, IsUse: f[1] == "use"})
+					curF.CallSites = append(curF.CallSites, &CallSiteSpec{Callee: f[0], Tag: c.Tag, Clause: c, IsUse: f[1] == "use", IsReach: f[1] == "reach"})
 				case "nooverflow":
 					curF.NoOverflow = true
 				case "pure":
